@@ -63,12 +63,18 @@ Proof.
 Qed.
 Print Assumptions C07E_hypotheses.
 
-(* 1d. the effective entries of the regenerated default list are these ten kinds, in this order *)
-Theorem C07E_pass_list : map kind_at (eff_stages cP) =
-  ["Orphanage"; "InstBundleElabPass"; "ResolvePortRefs"; "ConnTypes"; "BundleFlattener"; "ArrayFlattener"; "SliceResolver";
-   "ConnTypes"; "Orphanage"; "MarkModules"]%string.
-Proof. exact default_kinds. Qed.
-Print Assumptions C07E_pass_list.
+(* 1d. THE TABLE.  The bridge theorems below need one of two facts about the regenerated default list, boolean, proved for
+       the tree under test in Props/C07ETable.v (kept apart: history independence itself - sections 1 and 2 - holds for
+       EVERY pass list) and evaluated by the correspondence run on every run:
+         checked_list_ok    the effective entries are the ten kinds of Elaborator.default, in order;
+         unchecked_list_ok  among the effective entries the rewriting passes are ResolvePortRefs, ArrayFlattener,
+                            SliceResolver, in this order, and all others are checking / bundle / marking entries.
+       The first implies the second.  (The pinned tree lists ConnTypes and Orphanage twice: their repeats share the cache
+       of the first occurrence and never run - Props/C07.v; there the second fact holds and the first does not, which is
+       exactly C02's pinned-tree defect.) *)
+Theorem C07E_table_facts : checked_list_ok = true -> unchecked_list_ok = true.
+Proof. exact checked_list_unchecked. Qed.
+Print Assumptions C07E_table_facts.
 
 Theorem C07E_valid_is_listed_in_order d : wf_design d = Ok tt -> hier_design d = Ok tt.
 Proof.
@@ -119,8 +125,8 @@ Print Assumptions C07E_idempotent.
        (No stage changes a port list, and a stage reads other modules through their port lists only, so each stage can
        be handed the written design; then stages and modules commute.) *)
 Theorem C07E_pipeline_is_per_module xi d d' :
-  (elab_model xi d = Ok d' <-> per_module false xi d d') /\
-  (hier_design d = Ok tt -> (checked_elab xi d = Ok d' <-> per_module true xi d d')).
+  (unchecked_list_ok = true -> (elab_model xi d = Ok d' <-> per_module false xi d d')) /\
+  (checked_list_ok = true -> hier_design d = Ok tt -> (checked_elab xi d = Ok d' <-> per_module true xi d d')).
 Proof. split; [exact (elab_model_per_module xi d d')|exact (checked_elab_per_module xi d d')]. Qed.
 Print Assumptions C07E_pipeline_is_per_module.
 
@@ -129,42 +135,42 @@ Print Assumptions C07E_pipeline_is_per_module.
        of calls every module m that a call has reached holds exactly module m of d'; and when the calls have reached every
        module, reading the manager's state as a design returns d' - and conversely, whenever that reading succeeds the
        pipeline returns the same design. *)
-Theorem C07E_manager_is_pipeline xi d h : hier_design d = Ok tt -> calls_only h = true ->
+Theorem C07E_manager_is_pipeline xi d h : unchecked_list_ok = true -> hier_design d = Ok tt -> calls_only h = true ->
   let st := fst (crun false xi (cfresh d) h) in
   (forall d' m, elab_model xi d = Ok d' -> reached d h m ->
      exists m', nth_error (d_mods d') m = Some m' /\ PM.s_content st m = cok m') /\
   ((forall m, (m < Datatypes.length (d_mods d))%nat -> reached d h m) ->
      forall d', state_design d st = Ok d' <-> elab_model xi d = Ok d').
 Proof.
-  intros Hh Hc st. split.
-  - intros d' m He Hr. apply elab_model_per_module in He. destruct He as [_ [_ Hn]].
+  intros Hk Hh Hc st. split.
+  - intros d' m He Hr. apply (elab_model_per_module xi d d' Hk) in He. destruct He as [_ [_ Hn]].
     destruct Hr as [o [t [Hin [Ho [A [Ht D]]]]]].
     assert (m < Datatypes.length (d_mods d))%nat as Hm.
     { apply (desc_lt d Hh t m); [apply (PP.all_below_spec _ _ A t Ht)|exact D]. }
     destruct (nth_error (d_mods d) m) as [m0|] eqn:E; [|apply nth_error_None in E; lia].
     destruct (Hn m m0 E) as [m' [H1 H2]]. exists m'. split; [exact H1|]. rewrite <- H2.
     apply (hist_content false xi d Hh h m Hc). exists o, t. auto.
-  - intros Hr d'. unfold st. rewrite (hist_state_design false xi d Hh h d' Hc Hr). symmetry. apply elab_model_per_module.
+  - intros Hr d'. unfold st. rewrite (hist_state_design false xi d Hh h d' Hc Hr). symmetry. apply (elab_model_per_module xi d d' Hk).
 Qed.
 Print Assumptions C07E_manager_is_pipeline.
 
 (* 3c. the same with the checking entries switched on: the manager computes C02E's checked pipeline *)
-Theorem C07E_manager_is_checked_pipeline xi d h : hier_design d = Ok tt -> calls_only h = true ->
+Theorem C07E_manager_is_checked_pipeline xi d h : checked_list_ok = true -> hier_design d = Ok tt -> calls_only h = true ->
   let st := fst (crun true xi (cfresh d) h) in
   (forall d' m, checked_elab xi d = Ok d' -> reached d h m ->
      exists m', nth_error (d_mods d') m = Some m' /\ PM.s_content st m = cok m') /\
   ((forall m, (m < Datatypes.length (d_mods d))%nat -> reached d h m) ->
      forall d', state_design d st = Ok d' <-> checked_elab xi d = Ok d').
 Proof.
-  intros Hh Hc st. split.
-  - intros d' m He Hr. apply (checked_elab_per_module xi d d' Hh) in He. destruct He as [_ [_ Hn]].
+  intros Hk Hh Hc st. split.
+  - intros d' m He Hr. apply (checked_elab_per_module xi d d' Hk Hh) in He. destruct He as [_ [_ Hn]].
     destruct Hr as [o [t [Hin [Ho [A [Ht D]]]]]].
     assert (m < Datatypes.length (d_mods d))%nat as Hm.
     { apply (desc_lt d Hh t m); [apply (PP.all_below_spec _ _ A t Ht)|exact D]. }
     destruct (nth_error (d_mods d) m) as [m0|] eqn:E; [|apply nth_error_None in E; lia].
     destruct (Hn m m0 E) as [m' [H1 H2]]. exists m'. split; [exact H1|]. rewrite <- H2.
     apply (hist_content true xi d Hh h m Hc). exists o, t. auto.
-  - intros Hr d'. unfold st. rewrite (hist_state_design true xi d Hh h d' Hc Hr). symmetry. apply (checked_elab_per_module xi d d' Hh).
+  - intros Hr d'. unfold st. rewrite (hist_state_design true xi d Hh h d' Hc Hr). symmetry. apply (checked_elab_per_module xi d d' Hk Hh).
 Qed.
 Print Assumptions C07E_manager_is_checked_pipeline.
 
@@ -186,7 +192,7 @@ Print Assumptions C07E_top_reaches_all.
    without the checking entries - as soon as the calls have reached every module (e.g. the last one exports the top
    module of a design without unused modules: C07E_top_reaches_all).  Hypotheses on the design: those of
    C01E_end_to_end_partial (valid; port references are whole connections; the side table spells the devices). *)
-Theorem C07E_end_to_end_any_history ck xi d h d' p ts :
+Theorem C07E_end_to_end_any_history ck xi d h d' p ts : list_ok ck = true ->
   wf_design d = Ok tt -> frag_ok d = true -> xinfo_ok xi d = true ->
   calls_only h = true -> (forall m, (m < Datatypes.length (d_mods d))%nat -> reached d h m) ->
   state_design d (fst (crun ck xi (cfresh d) h)) = Ok d' -> export_model xi d' = Ok p -> terminals d = Ok ts ->
@@ -196,27 +202,27 @@ Theorem C07E_end_to_end_any_history ck xi d h d' p ts :
     (forall t dev, In (t, dev) ts ->
        exists pd, design_of_pkg prims_ext p tn = Ok pd /\ valid pd (term_map xi d t) /\ dev_at pd (term_map xi d t) = Ok dev).
 Proof.
-  intros Hwf Hfr Hxi Hc Hr Hs Hp Hts. pose proof (C07E_valid_is_listed_in_order d Hwf) as Hh.
+  intros Hk Hwf Hfr Hxi Hc Hr Hs Hp Hts. pose proof (C07E_valid_is_listed_in_order d Hwf) as Hh.
   apply (hist_state_design ck xi d Hh h d' Hc Hr) in Hs.
   assert (elab_model xi d = Ok d') as He.
-  { destruct ck; [|apply elab_model_per_module; exact Hs].
-    apply checked_elab_unchecked. apply (checked_elab_per_module xi d d' Hh). exact Hs. }
+  { destruct ck; cbn [list_ok] in Hk; [|apply (elab_model_per_module xi d d' Hk); exact Hs].
+    apply checked_elab_unchecked. apply (checked_elab_per_module xi d d' Hk Hh). exact Hs. }
   apply (Hdl21.Props.C01E.C01E_end_to_end_partial xi d p ts Hwf Hfr Hxi); [|exact Hts].
   unfold elab_export_model. rewrite He. exact Hp.
 Qed.
 Print Assumptions C07E_end_to_end_any_history.
 
 (* ... and the package is closed and self-consistent (C06E) *)
-Theorem C07E_package_wf_any_history ck xi d h d' p :
+Theorem C07E_package_wf_any_history ck xi d h d' p : list_ok ck = true ->
   wf_design d = Ok tt -> frag_ok d = true -> xinfo_ok xi d = true ->
   calls_only h = true -> (forall m, (m < Datatypes.length (d_mods d))%nat -> reached d h m) ->
   state_design d (fst (crun ck xi (cfresh d) h)) = Ok d' -> export_model xi d' = Ok p -> wf_pkg prims_ext p = Ok tt.
 Proof.
-  intros Hwf Hfr Hxi Hc Hr Hs Hp. pose proof (C07E_valid_is_listed_in_order d Hwf) as Hh.
+  intros Hk Hwf Hfr Hxi Hc Hr Hs Hp. pose proof (C07E_valid_is_listed_in_order d Hwf) as Hh.
   apply (hist_state_design ck xi d Hh h d' Hc Hr) in Hs.
   assert (elab_model xi d = Ok d') as He.
-  { destruct ck; [|apply elab_model_per_module; exact Hs].
-    apply checked_elab_unchecked. apply (checked_elab_per_module xi d d' Hh). exact Hs. }
+  { destruct ck; cbn [list_ok] in Hk; [|apply (elab_model_per_module xi d d' Hk); exact Hs].
+    apply checked_elab_unchecked. apply (checked_elab_per_module xi d d' Hk Hh). exact Hs. }
   apply (Hdl21.Props.C01E.C06E_export_wf_partial xi d p Hwf Hfr Hxi). unfold elab_export_model. rewrite He. exact Hp.
 Qed.
 Print Assumptions C07E_package_wf_any_history.
@@ -252,7 +258,7 @@ Example C07E_ex_histories : exists d',
   (exists top, nth_error (d_mods d') 2 = Some top /\
      map fst (m_sigs top) = ["bus"; "s"; "m1_y"; "m1_x"; "m2_y"; "m3_y"]%string /\
      map i_name (m_insts top) = ["m0"; "m1"; "m2"; "m3"; "m4"; "e0"; "arr_0"; "arr_1"]%string) /\
-  Datatypes.length (PM.s_log (fst (crun true ex_xinfo (cfresh ex_design) exh1))) = 30%nat /\
+  Datatypes.length (PM.s_log (fst (crun true ex_xinfo (cfresh ex_design) exh1))) = (3 * Datatypes.length (eff_stages cP))%nat /\
   PM.s_err (fst (crun true ex_xinfo (cfresh ex_design) exh1)) = false.
 Proof.
   vm_compute. eexists. split; [reflexivity|]. split; [reflexivity|]. split; [reflexivity|]. split; [reflexivity|]. split; [reflexivity|].
